@@ -195,6 +195,12 @@ func Yield()                         {}
 func PreemptBound(k int) {}
 func WaitIdle()                      {}
 
+// MemFS(true): under symgo, from now on the os package works on an in-memory file system that
+// starts empty on every path (regular files, concrete names, contents may be symbolic) instead
+// of the default empty, write-discarding one. Natively a no-op: the harness uses real files
+// (under a directory from os.MkdirTemp).
+func MemFS(on bool) {}
+
 // LateGoroutine(n): under symgo, from now on one goroutine started later on the path may be
 // chosen (a symbolic decision at each `go`) to be late: whenever the scheduler would run it
 // while another goroutine can run, it is either released for good or passed over, at most n
